@@ -245,6 +245,31 @@ def _terminates(body):
     return False
 
 
+def _hoist_invariants(loop):
+    """N19: leading statements of a loop body of the form  name = <call-free expression over things the loop never writes>
+    are the same before the loop (they are evaluated at least once whenever the body runs; hoisting them when the body never
+    runs only binds a name nobody reads).  Returns the hoisted statements; the loop body is shortened in place."""
+    from .inline import _has_impure_call, _read_roots, _write_roots
+    if isinstance(loop, ast.While) and not (isinstance(loop.test, ast.Constant) and loop.test.value is True):
+        return []
+    if isinstance(loop, ast.For):
+        return []
+    hoisted = []
+    while len(loop.body) > 1:
+        st = loop.body[0]
+        if not (isinstance(st, ast.Assign) and len(st.targets) == 1 and isinstance(st.targets[0], ast.Name)) or _has_impure_call(st.value):
+            break
+        name = st.targets[0].id
+        rest_writes = set()
+        for s in loop.body[1:]:
+            rest_writes |= _write_roots(s)
+        if name in rest_writes or (_read_roots(st.value) & (rest_writes | {name})):
+            break
+        hoisted.append(st)
+        loop.body = loop.body[1:]
+    return hoisted
+
+
 def _drop_trailing_continue(body):
     """N18: a `continue` that is the last thing a loop body would do anyway (also at the end of the arms of a final if) is dropped"""
     if not body:
@@ -404,6 +429,8 @@ class _Norm(ast.NodeTransformer):
             if isinstance(st, ast.Pass) and len(stmts) > 1:
                 i += 1
                 continue
+            if isinstance(st, (ast.While, ast.For)):
+                out.extend(_hoist_invariants(st))
             out.append(st)
             i += 1
         return out or [ast.Pass()]
